@@ -5,7 +5,6 @@ import (
 	"go/types"
 )
 
-
 // produce a "dirty" (non-zero, otherwise arbitrary) value of type t
 func (x *Exec) havocVal(t types.Type, depth int) Value {
 	switch u := t.Underlying().(type) {
